@@ -1,2 +1,3 @@
 import Paroxy.Props.C08
+import Paroxy.Props.C09
 import Paroxy.Props.C10
